@@ -24,8 +24,8 @@ func init() {
 
 type c04Case struct {
 	Name    string   `json:"name"`
-	Outcome string   `json:"outcome"` // nil error panic
-	Begin   string   `json:"begin"`   // ok fail noreply rst
+	Outcome string   `json:"outcome"`              // nil error panic
+	Begin   string   `json:"begin"`                // ok fail noreply rst
 	Seq     []string `json:"second_phase_replies"` // ok fail noreply rst cancel+ok cancel+noreply
 	Retry   int      `json:"retry_setting"`
 	Cancel  string   `json:"cancel"` // "", before_begin, in_business, phase2
